@@ -4,6 +4,7 @@ import (
 	"fmt"
 	"runtime"
 	"sync"
+	"time"
 	"unsafe"
 )
 
@@ -311,7 +312,7 @@ func (s *Sim) Run() error {
 			s.Switches = append(s.Switches, Switch{t.ID, site, steps})
 		}
 		if s.GCOdds > 0 && s.Forced < s.GCMax && s.Sched.Intn(s.GCOdds, "gc") == 0 {
-			runtime.GC()
+			gcAndFinalizers()
 			s.Forced++
 		}
 		if s.OnSwitch != nil {
@@ -325,6 +326,24 @@ func (s *Sim) Run() error {
 		}
 	}
 	return nil
+}
+
+// gcAndFinalizers forces a collection and then waits until the finalizers it
+// queued have run: a sentinel's finalizer is queued by a second collection,
+// behind them (the runtime runs finalizers in queue order on one goroutine).
+// The timeout is only a safety net.
+func gcAndFinalizers() {
+	runtime.GC()
+	done := make(chan struct{})
+	type sentinel struct{ p *int }
+	s := &sentinel{new(int)}
+	runtime.SetFinalizer(s, func(*sentinel) { close(done) })
+	s = nil
+	runtime.GC()
+	select {
+	case <-done:
+	case <-time.After(50 * time.Millisecond):
+	}
 }
 
 // Solo runs fn on the calling goroutine as a single task with a step budget
